@@ -53,6 +53,42 @@ def gen_inputs(ctx):
     return cases
 
 
+def second_rounds(A, rng, parts, members, first_out, lines, impl, meta):
+    """two related second-round inputs carrying the first round's result as user data"""
+    from checks.c15 import _sticky_round
+    prev = {m: items for m, items in first_out}
+    topics = [t for t, _ in parts]
+    all_topics = sorted({t for _, sb in members for t in sb} | set(topics))
+    for _ in range(2):
+        kind = rng.randrange(5)
+        parts2, mem2 = [(t, list(ps)) for t, ps in parts], [(m, list(sb)) for m, sb in members]
+        if kind == 0 and len(mem2) >= 2:          # some members leave
+            gone = set(rng.sample([m for m, _ in mem2], rng.randrange(1, len(mem2))))
+            mem2 = [(m, sb) for m, sb in mem2 if m not in gone]
+        elif kind == 1:                            # a member joins (any subscription)
+            mem2 = mem2 + [(200 + rng.randrange(3), sorted(rng.sample(all_topics, rng.randrange(1, len(all_topics) + 1))))]
+        elif kind == 2:                            # one member changes its subscription
+            i = rng.randrange(len(mem2))
+            mem2[i] = (mem2[i][0], sorted(rng.sample(all_topics, rng.randrange(1, len(all_topics) + 1))))
+        elif kind == 3 and parts2:                 # a topic grows, and (half the time) a member joins as well
+            i = rng.randrange(len(parts2))
+            parts2[i] = (parts2[i][0], list(range(len(parts2[i][1]) + rng.randrange(1, 4))))
+            if rng.random() < 0.5:
+                mem2 = mem2 + [(210, list(mem2[0][1]))]
+        else:                                      # leave + join + change at once
+            mem2 = [(m, sb) for m, sb in mem2 if rng.random() < 0.7] or mem2[:1]
+            mem2 = mem2 + [(220, sorted(rng.sample(all_topics, rng.randrange(1, len(all_topics) + 1))))]
+        ORACLE_LOG.clear()
+        out2 = enc_output(_sticky_round(A, parts2, mem2, prev, -1))
+        P2, M2 = enc_parts(parts2), enc_parts(mem2)
+        lines.append(f"c14 holds sticky {P2} {M2} {out2}")
+        impl.append("true")
+        meta.append({"kind": "sticky", "parts": parts2, "members": mem2, "out": out2, "prev": first_out, "second_round": True})
+        lines.append(sticky_line(parts2, mem2, first_out))
+        impl.append(out2)
+        meta.append({"kind": "sticky-port", "parts": parts2, "members": mem2, "out": out2, "prev": first_out})
+
+
 def run(ctx):
     ctx.coverage["trusted_base"] = [
         "Lean 4.33.0 kernel; axioms propext, Classical.choice, Quot.sound only",
@@ -77,6 +113,7 @@ def run(ctx):
         cases = gen_inputs(ctx)
     lines, impl, meta = [], [], []
     hangs = {}
+    rng2 = ctx.rng("second-rounds")
     for parts, members in cases:
         P, M = enc_parts(parts), enc_parts(members)
         nontrivial = len(members) >= 2 and any(ps for _, ps in parts)
@@ -100,12 +137,59 @@ def run(ctx):
                     lines.append(sticky_line(parts, members, None))
                     impl.append(out)
                     meta.append({"kind": "sticky-port", "parts": parts, "members": members, "out": out})
+                    # second rounds WITH previous-assignment user data (the property's quantifier names them):
+                    # members leave / join, subscriptions change, topics grow — validity and KIP-54 balance of the
+                    # result, and byte-identical T-diff with the port
+                    if members and rng2.random() < (1.0 if len(cases) < 4000 else 0.35):
+                        try:
+                            second_rounds(A, rng2, parts, members, run_assignor(A, kind, parts, members, limit_s=3.0),
+                                          lines, impl, meta)
+                        except Exception as e:  # noqa
+                            if type(e).__name__ == "AssignorHang":
+                                hangs[kind] = hangs.get(kind, 0) + 1
+                                ctx.violation("sticky-nontermination", f"sticky assignor did not finish a second round after {P} {M}",
+                                              {"cases": [{"parts": parts, "members": members}]})
+                            else:
+                                ctx.violation(f"sticky-raises:{type(e).__name__}", f"sticky assignor raised {e!r} in a second round after {P} {M}",
+                                              {"cases": [{"parts": parts, "members": members}]})
                 continue
             else:
                 lines.append(f"c14 {kind} {P} {M}")
                 impl.append(out)
             meta.append({"kind": kind, "parts": parts, "members": members, "out": out})
         ctx.count((P, M), nontrivial=nontrivial, n=3)
+    # a family of its own: several topics grow while a member joins, on top of a previous assignment (the first
+    # balancing pass moves new partitions, the second has to move owned ones) — small groups, general subscriptions
+    if ctx.replay_cases is None and hangs.get("sticky", 0) < 2:
+        from checks.c15 import _sticky_round
+        n_grow = 40000 if ctx.thorough else 4000
+        for _ in range(n_grow):
+            nt = rng2.randrange(2, 5)
+            parts = [(t, list(range(rng2.randrange(0, 6)))) for t in range(nt)]
+            members = [(m, sorted(rng2.sample(range(nt), rng2.randrange(1, nt + 1)))) for m in range(rng2.randrange(1, 4))]
+            try:
+                ORACLE_LOG.clear()
+                r1 = _sticky_round(A, parts, members, None, -1)
+                parts2 = [(t, list(range(len(ps) + rng2.randrange(0, 5)))) for t, ps in parts]
+                mem2 = members + [(300, sorted(rng2.sample(range(nt), rng2.randrange(1, nt + 1))))]
+                ORACLE_LOG.clear()
+                out2 = enc_output(_sticky_round(A, parts2, mem2, {m: items for m, items in r1}, -1))
+            except Exception as e:  # noqa
+                if type(e).__name__ == "AssignorHang":
+                    hangs["sticky"] = hangs.get("sticky", 0) + 1
+                    if hangs["sticky"] >= 2:
+                        break
+                    continue
+                ctx.violation(f"sticky-raises:{type(e).__name__}", f"sticky assignor raised {e!r} (topics grow + member joins)",
+                              {"cases": [{"parts": parts, "members": members}]})
+                continue
+            lines.append(f"c14 holds sticky {enc_parts(parts2)} {enc_parts(mem2)} {out2}")
+            impl.append("true")
+            meta.append({"kind": "sticky", "parts": parts2, "members": mem2, "out": out2, "prev": r1, "second_round": True})
+            lines.append(sticky_line(parts2, mem2, r1))
+            impl.append(out2)
+            meta.append({"kind": "sticky-port", "parts": parts2, "members": mem2, "out": out2, "prev": r1})
+        ctx.coverage["sticky_grow_join_second_rounds"] = n_grow
     res = ctx.driver("akdriver", lines)
     ctx.coverage["rule"] = ("inputs: slice (quick) or all (thorough) of the space ≤4 members × ≤3 topics × 0..4 "
                             "partitions or no metadata × every non-empty subscription, plus seeded random inputs to "
